@@ -151,11 +151,12 @@ pub fn is_valid_token(token: &String, db: &Database) -> bool {
 pub fn is_valid_user_token(token: &String, user_name: &String, db: &Database) -> bool {
     let db = db.map.read().unwrap();
     match db.get(&format!("$$user_{}", user_name)) {
-        Some(value) => {
+        // A removed user is kept as a tombstone until the next snapshot: it cannot log in
+        Some(value) if value.state != ValueStatus::Deleted => {
             log::debug!("[is_valid_token] Token {} value {}", value, token);
             value == token
         }
-        None => false,
+        _ => false,
     }
 }
 
